@@ -37,8 +37,33 @@ def rewrite(src, wanted, path):
     return '\n'.join(out), missing
 
 
-def generate(builddir, repo='/repo'):
-    outdir = os.path.join(builddir, 'shim')
+SCHED = 'github.com/tencent/goom/zzverif/sched'
+
+
+def mempoints(src, rel):
+    """The "code reads are visible operations" variant: every exported function of the memory package (the only
+    door to the program's own code bytes) gets a scheduling point on entry and another one on return, so that the
+    explorer can switch threads between a read of code bytes and their use. PageStart (address arithmetic) is left out."""
+    out, n = [], 0
+    for line in src.split('\n'):
+        out.append(line)
+        m = re.match(r'^func ([A-Z]\w*)\(.*\{\s*$', line)
+        if m and m.group(1) != 'PageStart':
+            out.append('\tvsched.Point("memory.%s", nil)' % m.group(1))
+            out.append('\tdefer vsched.Point("memory.%s returns", nil)' % m.group(1))
+            n += 1
+    if not n:
+        return src
+    new = '\n'.join(out)
+    if 'import (' in new:
+        new = new.replace('import (', 'import (\n\tvsched "%s"' % SCHED, 1)
+    else:
+        new = re.sub(r'^(package \w+\s*)$', r'\1\nimport vsched "%s"\n' % SCHED, new, count=1, flags=re.M)
+    return new
+
+
+def generate(builddir, repo='/repo', mem=False):
+    outdir = os.path.join(builddir, 'shim-mem' if mem else 'shim')
     rep = {}
     # every non-test go file of the module that imports sync or sync/atomic gets the shim too
     extra = {}
@@ -53,7 +78,7 @@ def generate(builddir, repo='/repo'):
             if re.search(r'_(windows|darwin|arm64|386)\.go$', f):
                 continue
             src = open(os.path.join(root, f), encoding='utf8').read()
-            if re.search(r'^\s*(import\s+)?"(sync|sync/atomic)"\s*$', src, re.M):
+            if re.search(r'^\s*(import\s+)?"(sync|sync/atomic)"\s*$', src, re.M) or mem and rel.startswith('internal/bytecode/memory/'):
                 extra[rel] = []
     for rel, wanted in list(FILES.items()) + list(extra.items()):
         p = os.path.join(repo, rel)
@@ -68,6 +93,8 @@ def generate(builddir, repo='/repo'):
             if pkg in src:
                 sys.stderr.write('HARNESS-ERROR: shimgen: %s uses %s but its import could not be rewritten\n' % (rel, w))
                 sys.exit(2)
+        if mem and rel.startswith('internal/bytecode/memory/'):
+            new = mempoints(new, rel)
         dst = os.path.join(outdir, rel)
         os.makedirs(os.path.dirname(dst), exist_ok=True)
         tmp = dst + '.%d.tmp' % os.getpid()
